@@ -34,21 +34,22 @@ def run(tier):
     for mtu_ok in ([True] if tier == 'quick' else [True, False]):
         fs = FrameSetup(prog, mtu_ok=mtu_ok)
         fs.keep_iter_states = True
-        rc0 = ('sym', 'rc.send_frame.sendProbeMsg.0', -(1 << 31), (1 << 31) - 1)
+        rc0 = ('sym', 'rc.send_frame.0', -(1 << 31), (1 << 31) - 1)
         from .frame_common import TOS, OPC, KNOWN
         res, obs, stats = run_regions(fs, regions=['topo.emit'], jobs=1, tracked=(TOS, OPC, rc0))
         tag = '' if mtu_ok else '|mtu-fallback'
         loops = stats['topo.emit']['loops']
-        lid = [l for l in loops if l.startswith('parseEmit#')]
+        # the descriptor loop: the loop of the Emit cell whose iterations transmit (whatever the handler is called)
+        lid = [l for l in loops if any(any(e[0] == 'send' for e in tr) for _k, tr, _s in (loops[l].get('iter_states') or []))]
         if len(lid) != 1:
-            raise AnalysisBroken('expected exactly one loop in parseEmit, found %s' % lid)
+            raise AnalysisBroken('expected exactly one transmitting loop in the Emit cell, found %s (loops %s)' % (lid, sorted(loops)))
         info = loops[lid[0]]
         k = ('sym', 'iter:' + lid[0], 0, INF)
         ind = info['induction']
         fnf = 'lltdResponder/lltdBlock.c'
         # (no demand on how the loop counts - up, down, by pointer: descriptor k is located through the iteration number k,
         #  and `last` is decided from the loop condition after the iteration)
-        fail_obligations(rep, obs, 'R06.1', kinds=('bounds',), only_fns=('parseEmit',))
+        fail_obligations(rep, obs, 'R06.1', kinds=('bounds',))
         iters = info['iter_states'] or []
         if not iters:
             raise AnalysisBroken('no iteration states recorded for the Emit loop')
@@ -132,7 +133,7 @@ def check_iteration(rep, fs, st, trace, k, tag, kind):
                       'Probe/Train Ethernet destination byte %d is %s, not the descriptor\'s destination address' % (i, short(st.canon(p.byte(i)))), function='sendProbeMsg', file=fnf)
             rep.check(own_mac_byte(st, p.byte(24 + i), i), 'R06.3', 'iter|real-src' + tag, 'Probe/Train real source is not the own address', function='sendProbeMsg', file=fnf)
     # ACK condition
-    nxt = [v for t_, v in st.tags.items() if str(t_).startswith('next:parseEmit#')]
+    nxt = [v for t_, v in st.tags.items() if str(t_).startswith('next:')]
     if kind in ('break', 'return'):
         last, notlast = True, False
     else:
@@ -164,7 +165,7 @@ def check_iteration(rep, fs, st, trace, k, tag, kind):
         for e in trace:
             if e[0] == 'send':
                 pass
-        rcs = [a for a in st.env if a[0] == 'sym' and str(a[1]).startswith('rc.send_frame.sendProbeMsg')]
+        rcs = [a for a in st.env if a[0] == 'sym' and str(a[1]).startswith('rc.send_frame.')]
         refused = any(st.dom(a).hi < 0 for a in rcs)
         if kind == 'continue' and sent_ok and not refused:
             rep.check(bool(notlast), 'R06.4', 'ack|missing-on-last' + tag, 'no ACK is sent in an iteration that may be the last descriptor', function='sendProbeMsg', file=fnf)
